@@ -6,7 +6,7 @@ import ast
 import re
 
 from ..cfg import cfg_of
-from ..core import AnalysisError, call_name, const_value, unparse, walk_no_nested
+from ..core import seq, AnalysisError, call_name, const_value, unparse, walk_no_nested
 from ..packs import ord_pack
 from ..report import Ctx
 from .c04 import restore_rule
@@ -66,7 +66,7 @@ def run(ctx: Ctx) -> None:
         unp = [n for n in walk_no_nested(e.node) if isinstance(n, ast.Assign) and unparse(n.value) == outv and isinstance(n.targets[0], ast.Tuple)]
         ctx.need(len(unp) == 1, f'{mname}: the optimisation result is unpacked')
         xstar = unparse(unp[0].targets[0].elts[0])
-        ev = [n for n in walk_no_nested(e.node) if isinstance(n, (ast.Assign, ast.AnnAssign)) and isinstance(n.value, ast.Call) and unparse(n.value.func) in ('self.calculate_likelihood_and_derivatives', 'self.calculate_likelihood') and n.lineno > unp[0].lineno]
+        ev = [n for n in walk_no_nested(e.node) if isinstance(n, (ast.Assign, ast.AnnAssign)) and isinstance(n.value, ast.Call) and unparse(n.value.func) in ('self.calculate_likelihood_and_derivatives', 'self.calculate_likelihood') and seq(n) > seq(unp[0])]
         bound = prog.bind_call(e, ev[0].value) if len(ev) == 1 else None
         kws = {k: unparse(v) for k, v in (bound or {}).items()}
         ok = bound is not None and kws.get('x') == xstar and kws.get('scaled') == 'False'
